@@ -9,7 +9,7 @@ use serde_json::{Value, json};
 use std::os::unix::fs::FileExt;
 use std::time::Duration;
 
-const FN_TEXT: &str = r#"
+pub const FN_TEXT: &str = r#"
 #[derive(Clone, Copy)]
 pub struct Pt {
     a: i32,
@@ -53,16 +53,16 @@ fn dv(seed: u64) -> u64 {
 }
 "#;
 
-struct Dap {
-    sess: ISession,
-    seq: i64,
+pub struct Dap {
+    pub sess: ISession,
+    pub seq: i64,
     pub pid: i64,
 }
 
 impl Dap {
-    fn send(&mut self, command: &str, args: Value) -> Result<Value, String> {
+    pub fn send(&mut self, command: &str, args: Value) -> Result<Value, String> {
         self.seq += 1;
-        let o = self.sess.cmd(&json!({"seq": self.seq, "type": "request", "command": command, "arguments": args}), Duration::from_secs(60)).map_err(|e| format!("{command}: {e:?}"))?;
+        let o = self.sess.cmd(&json!({"seq": self.seq, "type": "request", "command": command, "arguments": args}), Duration::from_secs(25)).map_err(|e| format!("{command}: {e:?}"))?;
         if let Some(p) = o["pid"].as_i64() {
             if p > 0 {
                 self.pid = p;
